@@ -324,6 +324,45 @@ def oracle(ctx):
     L.history_oracle(ctx, ctx.subrng("oracle-history"), L.g_start_kw, ctx.budget(500, 6000), 10, "history")
 
     check_fractional_sub(ctx, ctx.subrng("oracle-fractional"))
+    check_promotion_history(ctx, ctx.subrng("oracle-promotion-history"))
+
+
+def check_promotion_history(ctx, rng):
+    """the promotion clause on an object with a HISTORY: after every mutation (weeks setter, attribute assignment) a date
+    operand is promoted to a datetime exactly when the delta's CURRENT fields carry time information.  The implementation
+    decides by the flag `_has_time`, which only `_fix` (the constructor) computes: attribute assignment leaves it stale
+    (known finding D-C03-stale-has-time; the `weeks` setter cannot change the time information and is always fine)."""
+    from dateutil.relativedelta import relativedelta
+    for i in range(ctx.budget(400, 5000)):
+        st = L.g_start_kw(rng)
+        if st is None:
+            continue
+        d = L.build_start(st)
+        steps = []
+        x = L.g_temporal(rng, ("d",))
+        for _ in range(rng.randint(1, 5)):
+            r = rng.random()
+            if r < 0.25:
+                step = ["weeks", rng.randint(-5, 5)]
+            elif r < 0.75:
+                k = rng.choice(["hours", "minutes", "seconds", "microseconds", "hour", "minute", "second", "microsecond"])
+                step = ["set", k, rng.choice([0, 0, 1, -1, 5, None] if not k.endswith("s") else [0, 0, 0, 1, -1, 5, 30])]
+            else:
+                step = ["set", rng.choice(["days", "months", "years"]), rng.randint(-5, 5)]
+            steps.append(step)
+            L.apply_step(d, step)
+            carries = has_time_info(d)
+            res = L.run(lambda: x + d, L.t_wire)
+            ctx.case(("promotion_history", i, len(steps))); ctx.count("promotion_history_states")
+            if not res.startswith("ok"):
+                continue
+            promoted = res.split()[1] != "d"
+            if promoted != carries:
+                ctx.violation("after %r a date operand is %s although the delta %r %s time information"
+                              % (steps, "promoted" if promoted else "NOT promoted", d, "carries" if carries else "carries no"),
+                              {"law": "stale_has_time", "start": L.start_json(st), "steps": list(steps), "x": L.t_wire(x),
+                               "flag": int(d._has_time), "carries": int(carries), "promoted": int(promoted), "res": res})
+                break
 
 
 DYADIC = [0.5, -0.5, 1.5, -1.5, 0.25, 2.25, -2.75, 0.125, 10.5, -36.5, 100.75]
@@ -424,7 +463,18 @@ def fields_to_kw(tok):
     return {k: v for k, v in kw.items() if v is not None}
 
 
-KNOWN = {}     # D-C03-yearday366 was repaired in /repo (see known_findings.d/00-fixed.json); the yearday streams above report it again
+def _stale_has_time_known(v):
+    """D-C03-stale-has-time: the class (the cached flag differs from what the current fields say - only attribute assignment
+    after construction can do that) AND the observed symptom (the promotion followed the stale flag; the value is otherwise
+    the model's on the current record: Lean theorem C03.promotion_follows_flag)"""
+    c = v["case"]
+    return c.get("law") == "stale_has_time" and c.get("flag") != c.get("carries") and c.get("promoted") == c.get("flag") \
+        and any(st[0] == "set" and st[1] in ("hours", "minutes", "seconds", "microseconds", "hour", "minute", "second", "microsecond")
+                for st in c.get("steps", []))
+
+
+# D-C03-yearday366 was repaired in /repo (see known_findings.d/00-fixed.json); the yearday streams above report it again
+KNOWN = {"D-C03-stale-has-time": _stale_has_time_known}
 
 
 def replay(ctx, payload):
@@ -433,6 +483,14 @@ def replay(ctx, payload):
     from dateutil.relativedelta import relativedelta
     if law == "history":
         return L.replay_history(c)
+    if law == "stale_has_time":
+        d = L.build_start(L.start_unjson(c["start"]))
+        for st in c["steps"]:
+            L.apply_step(d, st)
+        x = L.parse_t(c["x"].split())
+        res = x + d
+        print("after %r: %r (_has_time=%r); %s + delta = %r" % (c["steps"], d, d._has_time, x, res))
+        return isinstance(res, datetime.datetime) == has_time_info(d)
     if law == "fractional":
         x = L.parse_t(c["x"].split())
         bad = fractional_failure(c["kw"], x)
